@@ -50,6 +50,7 @@ Definition k_v : bytes := Eval vm_compute in str "v".
 Definition k_value : bytes := Eval vm_compute in str "value".
 Definition k_verificationVector : bytes := Eval vm_compute in str "verificationVector".
 Definition k_verification_vector : bytes := Eval vm_compute in str "verification_vector".
+Definition k_modulus : bytes := Eval vm_compute in str "modulus".
 Definition k_u : bytes := Eval vm_compute in str "u".
 Definition k_m : bytes := Eval vm_compute in str "m".
 Definition k_sharingID : bytes := Eval vm_compute in str "sharingID".
@@ -377,6 +378,55 @@ Definition pedlifted_rules (c : curve) (x : item) : list rule :=
 Definition natplus_rules (x : item) : list rule :=
   [ (32, existsb (fun b => negb (b =? 0)) (bytes_of (fld k_natBytes (fld k_natPlus x)))) ].
 
+(* Integer-like leaves related to another leaf, wherever they occur in an item.
+   num.Uint is {value: {natBytes: v}, modulus: {modulus: {natBytes: m}}} (big-endian) and
+   Uint.UnmarshalCBOR enforces 0 <= v < m (rule 41) — no constructor builds a Uint with v >= m;
+   Paillier plaintexts, znstar group elements (v against n resp. n^2), ring-Pedersen trapdoors,
+   lpdl / prm message fields embed it.  num.NatPlus is {natPlus: {natBytes: n}} with n <> 0
+   (rule 42).  Both are checked on every sub-item of that exact shape. *)
+Definition nat_leaf (x : item) : option bytes :=
+  match x with
+  | Map [ (TStr k, BStr b) ] => if bytes_eqb k k_natBytes then Some b else None
+  | _ => None
+  end.
+Definition uint_leaf (x : item) : option (bytes * bytes) :=
+  match x with
+  | Map ps =>
+      if (len ps =? 2) && has_key ps k_value && has_key ps k_modulus then
+        match nat_leaf (fld k_value x), fld k_modulus x with
+        | Some v, Map [ (TStr k, mm) ] =>
+            if bytes_eqb k k_modulus then
+              match nat_leaf mm with Some m => Some (v, m) | None => None end
+            else None
+        | _, _ => None
+        end
+      else None
+  | _ => None
+  end.
+Definition natplus_leaf (x : item) : option bytes :=
+  match x with
+  | Map [ (TStr k, nn) ] => if bytes_eqb k k_natPlus then nat_leaf nn else None
+  | _ => None
+  end.
+Definition nonzero_bytes (b : bytes) : bool := existsb (fun y => negb (y =? 0)) b.
+
+Fixpoint leaves_ok (fuel : nat) (x : item) : bool * bool :=   (* (rule 41 holds, rule 42 holds) below x *)
+  match fuel with
+  | O => (true, true)
+  | S f =>
+      let here41 := match uint_leaf x with Some (v, m) => be_value v <? be_value m | None => true end in
+      let here42 := match natplus_leaf x with Some n => nonzero_bytes n | None => true end in
+      let sub := match x with
+                 | Arr l => map (leaves_ok f) l
+                 | Map ps => map (fun kv : item * item => leaves_ok f (snd kv)) ps
+                 | Tag _ y => [ leaves_ok f y ]
+                 | _ => []
+                 end in
+      (here41 && forallb fst sub, here42 && forallb snd sub)
+  end.
+Definition leaf_rules (x : item) : list rule :=
+  let r := leaves_ok 40 x in [ (41, fst r); (42, snd r) ].
+
 (* ---------------------------------------------------------------- the typed layer *)
 
 Inductive ty : Type :=
@@ -385,7 +435,7 @@ Inductive ty : Type :=
 | TBasePublic (c : curve) | TBaseShard (c : curve) (sharematch : bool)
 | TEcdsaSig (c : curve) | TDklsPartial (c : curve) | TPedShare (c : curve) | TPedLifted (c : curve)
 | TMatrix (c : curve) | TSqMatrix (c : curve) | TMvMatrix (c : curve)
-| TNat | TInt | TNatPlus | TScalar (c : curve) | TPoint (c : curve)
+| TNat | TInt | TNatPlus | TUint | TScalar (c : curve) | TPoint (c : curve)
 | TShallow (strict : bool) (cands : list (list (bytes * bool)))   (* field names only, gen/SerdeDtos.dto_groups *)
 | TGeneric.
 
@@ -477,6 +527,8 @@ Definition schema_of (t : ty) : schema :=
   | TNat => SStruct [ (k_nat, (false, s_natbytes k_natBytes)) ]
   | TInt => SStruct [ (k_int, (false, s_natbytes k_intBytes)) ]
   | TNatPlus => SStruct [ (k_natPlus, (false, s_natbytes k_natBytes)) ]
+  | TUint => SStruct [ (k_value, (false, s_natbytes k_natBytes));
+                       (k_modulus, (false, SStruct [ (k_modulus, (false, s_natbytes k_natBytes)) ])) ]
   | TScalar _ => s_scalar
   | TPoint _ => s_point
   | TShallow _ cands => SOneOf (map shallow_schema cands)
@@ -506,8 +558,9 @@ Definition rules_of (t : ty) (x : item) : list rule :=
   | TNatPlus => natplus_rules x
   | TScalar c => scalar_rules c x
   | TPoint c => point_rules c x
-  | TShallow strict cands => shallow_rules strict cands x
-  | TNat | TInt | TGeneric => []
+  | TShallow strict cands => shallow_rules strict cands x ++ leaf_rules x
+  | TUint | TGeneric => leaf_rules x
+  | TNat | TInt => []
   end.
 
 (* the validity predicate: every rule of the type holds *)
